@@ -39,11 +39,16 @@ MANIFEST = {
     "design_ref": "DESIGN.md section 3 (C23)",
 }
 SHADOWED = ("int", "float", "len")
-BINDINGS = ("absent", "user_function", "alias", "non_callable", "guppy_def")
+BINDINGS = ("absent", "user_function", "alias", "non_callable", "guppy_def",
+            "none_value", "zero", "user_class")
+H_BINDINGS = ("absent", "absent", "user_function", "alias", "non_callable", "none_value")
 FAULTS = ("none", "raise_user_exception", "zero_division", "branch_on_dynamic",
           "iterate_dynamic", "qubit_used_twice", "wrong_return_type", "leak_qubit",
           "bad_guppy_call", "callee_comptime_fails", "assert_false", "bad_signature",
-          "keyboard_interrupt_like")
+          "keyboard_interrupt_like", "raise_stop_iteration", "raise_generator_exit",
+          "raise_keyboard_interrupt", "raise_system_exit", "helper_raises")
+# how the Python function behind a comptime definition relates to the user's module
+STYLES = ("plain", "plain", "plain", "wrapped_same", "wrapped_other", "foreign")
 
 
 def warm() -> None:
@@ -84,6 +89,12 @@ def binding_src(name: str, kind: str) -> str:
         return f"{name} = {name}\n\n"
     if kind == "non_callable":
         return f"{name} = 5\n\n"
+    if kind == "none_value":
+        return f"{name} = None\n\n"
+    if kind == "zero":
+        return f"{name} = 0\n\n"
+    if kind == "user_class":
+        return f"class {name}:\n    pass\n\n"
     return f"@guppy.declare\ndef {name}(v: bool) -> bool: ...\n\n"
 
 
@@ -121,6 +132,11 @@ def fault_stmt(kind: str, ty: str) -> str | None:
         "bad_guppy_call": "bad = {regular}((1, 2, 3))",
         "assert_false": "assert False, 'user assertion'",
         "keyboard_interrupt_like": "raise SimBase()",
+        "raise_stop_iteration": "raise StopIteration()",
+        "raise_generator_exit": "raise GeneratorExit()",
+        "raise_keyboard_interrupt": "raise KeyboardInterrupt()",
+        "raise_system_exit": "raise SystemExit(3)",
+        "helper_raises": "hr = helper_raises(1)",
     }.get(kind)
 
 
@@ -135,6 +151,13 @@ def gen_config(ch: Choices, params: dict) -> dict:
                      "nested_scope": ch.draw(4, "nested_scope") == 0})
     # function table: (module, local name); comptime fns ct{m}_{j}, regular rg{m}
     cts = [(m, j) for m in range(n_mod) for j in range(mods[m]["n_ct"])]
+    helper = {n: ch.pick(H_BINDINGS, "hbinding_" + n) for n in SHADOWED}
+    styles = {}
+    for (m, j) in cts:
+        st = ch.pick(STYLES, "style")
+        if st == "foreign" and mods[m]["ty"] != "bool" and helper[mods[m]["ty"]] not in ("absent", "alias"):
+            st = "plain"   # the annotation name must denote the builtin type in both namespaces
+        styles[(m, j)] = st
     bodies = {}
     for (m, j) in cts:
         n = ch.rng_int(1, params.get("max_body", 5), "body_len")
@@ -150,56 +173,89 @@ def gen_config(ch: Choices, params: dict) -> dict:
                 s = "a = x"
             if s == "d = int(x)" and mods[m]["ty"] == "bool":
                 s = "a = x"
+            local = styles[(m, j)] != "foreign"   # foreign bodies live in the helper module
             stmts.append(s.replace("{comptime}", f"M{tgt[0]}.ct{tgt[0]}_{tgt[1]}"
-                                   if tgt[0] != m else f"ct{tgt[0]}_{tgt[1]}")
-                         .replace("{regular}", f"M{rg}.rg{rg}" if rg != m else f"rg{rg}"))
+                                   if tgt[0] != m or not local else f"ct{tgt[0]}_{tgt[1]}")
+                         .replace("{regular}", f"M{rg}.rg{rg}" if rg != m or not local else f"rg{rg}"))
         bodies[(m, j)] = stmts
     # regular functions may call a comptime function of the same type
     regs = {}
     for m in range(n_mod):
         same = [c for c in cts if mods[c[0]]["ty"] == mods[m]["ty"]]
         regs[m] = ch.pick(same, "reg_calls") if same and ch.draw(2, "reg_calls_ct") else None
-    return {"mods": mods, "cts": cts, "bodies": bodies, "regs": regs}
+    return {"mods": mods, "cts": cts, "bodies": bodies, "regs": regs, "helper": helper,
+            "styles": styles}
+
+
+LOGGED = ("def {name}(fn):\n    @functools.wraps(fn)\n    def wrapper(*args, **kwargs):\n"
+          "        return fn(*args, **kwargs)\n    return wrapper\n\n")
+HELPERS_PY = ("def helper_py(v):\n    return [v, v]\n\n"
+              "def helper_raises(v):\n    raise SimFault('helper')\n\n")
+
+
+def function_source(cfg: dict, mm: int, j: int, fault: dict | None) -> tuple[str, str]:
+    """(decorated definition for the owner module, plain definition for the helper module
+    or '') of comptime function (mm, j)."""
+    mod = cfg["mods"][mm]
+    ty = mod["ty"]
+    style = cfg["styles"][(mm, j)]
+    local = style != "foreign"
+    stmts = list(cfg["bodies"][(mm, j)])
+    if fault and fault.get("caller") == (mm, j):
+        cm, cj = fault["fn"]
+        stmts.insert(0, f"cc = ct{cm}_{cj}(x)" if cm == mm and local else f"cc = M{cm}.ct{cm}_{cj}(x)")
+    ret_ty, ret = ty, "return x"
+    sig_ty = ty
+    if fault and fault["fn"] == (mm, j):
+        k = fault["kind"]
+        if k == "wrong_return_type":
+            ret = "return (x, x)"
+        elif k == "bad_signature":
+            sig_ty = "NoSuchType"
+        else:
+            fs = fault_stmt(k, ty)
+            if fs is not None:
+                fs = fs.replace("{regular}", f"rg{mm}" if local else f"M{mm}.rg{mm}")
+                stmts.insert(min(fault["pos"], len(stmts)), fs)
+    body = "\n".join("    " + s for s in stmts + [ret])
+    if not local:
+        return (f"ct{mm}_{j} = guppy.comptime(H.fr{mm}_{j})\n\n",
+                f"def fr{mm}_{j}(x: {sig_ty}) -> {ret_ty}:\n{body}\n\n")
+    deco = {"plain": "", "wrapped_same": "@logged_same\n", "wrapped_other": "@H.logged\n"}[style]
+    fn = f"@guppy.comptime\n{deco}def ct{mm}_{j}(x: {sig_ty}) -> {ret_ty}:\n{body}\n\n"
+    if mod["nested_scope"]:
+        fn = ("def make_%d():\n" % j + "\n".join("    " + l for l in fn.splitlines())
+              + f"\n    return ct{mm}_{j}\n\nct{mm}_{j} = make_{j}()\n\n")
+    return fn, ""
+
+
+def helper_source(cfg: dict, fault: dict | None) -> str:
+    """The helper module H: a decorator, its own bindings of the shadowed names, and the
+    bodies of `foreign` comptime functions (registered from the user's module)."""
+    src = "import functools\nfrom sim.props.c23 import SimFault, SimBase\n\n"
+    for n in SHADOWED:
+        src += binding_src(n, cfg["helper"][n])
+    src += HELPERS_PY + LOGGED.format(name="logged")
+    for (mm, j) in cfg["cts"]:
+        src += function_source(cfg, mm, j, fault)[1]
+    return src
 
 
 def module_source(cfg: dict, m: int, fault: dict | None) -> str:
     mod = cfg["mods"][m]
     ty = mod["ty"]
-    src = "from sim.props.c23 import SimFault, SimBase\n\n"
+    src = "import functools\nimport c23_H as H\nfrom sim.props.c23 import SimFault, SimBase\n\n"
     for n in SHADOWED:
         src += binding_src(n, mod["bindings"][n])
-    src += "def helper_py(v):\n    return [v, v]\n\n"
+    src += HELPERS_PY + LOGGED.format(name="logged_same")
     tgt = cfg["regs"][m]
     call = "x"
     if tgt is not None:
         call = (f"ct{tgt[0]}_{tgt[1]}(x)" if tgt[0] == m else f"M{tgt[0]}.ct{tgt[0]}_{tgt[1]}(x)")
     src += f"@guppy\ndef rg{m}(x: {ty}) -> {ty}:\n    return {call}\n\n"
     for (mm, j) in cfg["cts"]:
-        if mm != m:
-            continue
-        stmts = list(cfg["bodies"][(mm, j)])
-        if fault and fault.get("caller") == (mm, j):
-            cm, cj = fault["fn"]
-            stmts.insert(0, f"cc = ct{cm}_{cj}(x)" if cm == mm else f"cc = M{cm}.ct{cm}_{cj}(x)")
-        ret_ty, ret = ty, "return x"
-        sig_ty = ty
-        if fault and fault["fn"] == (mm, j):
-            k = fault["kind"]
-            if k == "wrong_return_type":
-                ret = "return (x, x)"
-            elif k == "bad_signature":
-                sig_ty = "NoSuchType"
-            else:
-                fs = fault_stmt(k, ty)
-                if fs is not None:
-                    fs = fs.replace("{regular}", f"rg{m}")
-                    stmts.insert(min(fault["pos"], len(stmts)), fs)
-        body = "\n".join("    " + s for s in stmts + [ret])
-        fn = f"@guppy.comptime\ndef ct{mm}_{j}(x: {sig_ty}) -> {ret_ty}:\n{body}\n\n"
-        if mod["nested_scope"]:
-            fn = ("def make_%d():\n" % j + "\n".join("    " + l for l in fn.splitlines())
-                  + f"\n    return ct{mm}_{j}\n\nct{mm}_{j} = make_{j}()\n\n")
-        src += fn
+        if mm == m:
+            src += function_source(cfg, mm, j, fault)[0]
     # an argument-free entry point for `compile()`
     src += (f"@guppy.comptime\ndef entry{m}() -> None:\n    v = {'True' if ty == 'bool' else '1' if ty == 'int' else '1.5'}\n"
             f"    w = ct{m}_0(v)\n\n")
@@ -215,9 +271,11 @@ class SimBase(BaseException):
 IGNORED = {"__warningregistry__"}
 
 
-def snapshot(mods: list) -> dict:
+def snapshot(mods: list, helper=None) -> dict:
     snap = {f"M{i}": {k: id(v) for k, v in m.__dict__.items() if k not in IGNORED}
             for i, m in enumerate(mods)}
+    if helper is not None:
+        snap["H"] = {k: id(v) for k, v in helper.__dict__.items() if k not in IGNORED}
     snap["builtins"] = {n: id(getattr(builtins, n)) for n in SHADOWED}
     return snap
 
@@ -244,7 +302,7 @@ def run_case(ch: Choices, params: dict) -> dict:
     faults: dict[str, int] = {}
     probes = {"raise_while_user_binding_exists": 0, "raise_in_callee_traced_after_caller": 0,
               "two_modules_mocked_in_one_compile": 0, "fault_fired": 0, "fault_not_reached": 0,
-              "ops_ok": 0, "ops_raised": 0}
+              "ops_ok": 0, "ops_raised": 0, "raise_in_wrapped_or_foreign_fn": 0}
     steps = 0
     # the enumeration: every (comptime fn of module 0.., position, kind) for ONE drawn
     # target function, all positions x all kinds
@@ -273,6 +331,7 @@ def run_case(ch: Choices, params: dict) -> dict:
         tag = f"{ch.record[0]}_{ch.record[1] if len(ch.record) > 1 else 0}_{pi}"
         mods = []
         defn_error = None
+        hmod = genv.make_module("c23_H", helper_source(cfg, fault))
         for m in range(len(cfg["mods"])):
             src = module_source(cfg, m, fault)
             try:
@@ -285,6 +344,7 @@ def run_case(ch: Choices, params: dict) -> dict:
             for k2, other in enumerate(mods):
                 if k2 != i:
                     setattr(mod, f"M{k2}", other)
+            setattr(hmod, f"M{i}", mod)
         if defn_error:
             log.add("defn-error", pi, defn_error[:80])
             continue
@@ -303,7 +363,7 @@ def run_case(ch: Choices, params: dict) -> dict:
         fired = False
         for name, thunk in ops:
             steps += 1
-            before = snapshot(mods)
+            before = snapshot(mods, hmod)
             try:
                 thunk()
                 res = "ok"
@@ -312,9 +372,11 @@ def run_case(ch: Choices, params: dict) -> dict:
                 res = type(e).__name__
                 probes["ops_raised"] += 1
                 fired = True
+                if cfg["styles"][target] != "plain":
+                    probes["raise_in_wrapped_or_foreign_fn"] += 1
                 if any(b != "absent" for b in cfg["mods"][tm]["bindings"].values()):
                     probes["raise_while_user_binding_exists"] += 1
-            after = snapshot(mods)
+            after = snapshot(mods, hmod)
             d = diff(before, after)
             log.add(pi, kind, fault["pos"] if fault else -1, name, res, d)
             for cls, mod, nm in d:
@@ -322,7 +384,8 @@ def run_case(ch: Choices, params: dict) -> dict:
                                                           "name": nm if nm in SHADOWED else "other"},
                              "expected": f"{mod}.{nm} as before the op",
                              "observed": cls, "detail": {"op": name, "fault": fault, "result": res,
-                                                         "bindings": cfg["mods"][int(mod[1:])]["bindings"] if mod != "builtins" else None}})
+                                                         "style": cfg["styles"][target],
+                                                         "bindings": cfg["helper"] if mod == "H" else cfg["mods"][int(mod[1:])]["bindings"] if mod != "builtins" else None}})
             if fault and fault.get("caller") and res != "ok":
                 probes["raise_in_callee_traced_after_caller"] += 1
         faults[kind] = faults.get(kind, 0) + (1 if fired else 0)
@@ -335,7 +398,8 @@ def run_case(ch: Choices, params: dict) -> dict:
         if len(mods) >= 2:
             probes["two_modules_mocked_in_one_compile"] += 1
     key = hashlib.sha256(repr((cfg["mods"], sorted(cfg["bodies"].items()),
-                               sorted(cfg["regs"].items()))).encode()).hexdigest()[:16]
+                               sorted(cfg["regs"].items()), sorted(cfg["helper"].items()),
+                               sorted(cfg["styles"].items()))).encode()).hexdigest()[:16]
     plans_fired = sum(1 for s in shapes if s[2])
     res = {"violations": viol[:5], "digest": log.digest(), "steps": steps, "faults": faults,
            "probes": probes, "keys": [key + f"/{k}/{p}" for k, p, f in shapes],
@@ -343,6 +407,9 @@ def run_case(ch: Choices, params: dict) -> dict:
            "extra": {"fault_plans": len(plans), "fault_plans_fired": plans_fired,
                      "configurations": 1},
            "trace": {"bindings": [m["bindings"] for m in cfg["mods"]],
+                     "helper_bindings": cfg["helper"],
+                     "styles": {f"ct{m}_{j}": st for (m, j), st in cfg["styles"].items()},
+                     "source_H_no_fault": helper_source(cfg, None),
                      "target": f"ct{target[0]}_{target[1]}", "body": cfg["bodies"][target],
                      "ops": [n for n, _ in ops] if plans else [],
                      "source_M0_no_fault": module_source(cfg, 0, None),
